@@ -143,6 +143,9 @@ func (f *Frame) execCall(cur *blockCur, in ssa.Instruction, cc *ssa.CallCommon, 
 				v.T = res.Type()
 			}
 			f.vals[res] = v
+			if pv, ok := f.c.preRet[in]; ok && f.callerFrame == nil && v.S != "" && pv.S != "" {
+				f.c.axiom(fmt.Sprintf("(= %s %s)", pv.S, v.S), pv.S)
+			}
 			// returned(NAME) in specifications: the value of the latest call of NAME
 			if f.callerFrame == nil {
 				if f.c.lastCall == nil {
@@ -157,6 +160,9 @@ func (f *Frame) execCall(cur *blockCur, in ssa.Instruction, cc *ssa.CallCommon, 
 				} else if cc.IsInvoke() {
 					f.c.lastCall[cc.Method.Name()] = v
 					f.c.lastCallBlock[cc.Method.Name()] = in.Block()
+				} else if dn := dynCallName(cc); dn != "" {
+					f.c.lastCall[dn] = v
+					f.c.lastCallBlock[dn] = in.Block()
 				}
 			}
 		}
@@ -199,6 +205,23 @@ func (f *Frame) execCall(cur *blockCur, in ssa.Instruction, cc *ssa.CallCommon, 
 		hint = f.prefixSym() + res.Name()
 	}
 	f.callAsserts(cur, in, cc, callee, args)
+	f.countCall(cur, cc, callee)
+	if len(c.trackedCalls()) > 0 && f.callerFrame == nil {
+		// the call counters are the verifier's own bookkeeping: whatever the call does to memory, they keep the value
+		// they have now
+		saved := map[string]string{}
+		for _, n := range c.trackedCalls() {
+			saved[n] = cur.st.get(callsKey(n))
+		}
+		defer func() {
+			for _, n := range c.trackedCalls() {
+				k := callsKey(n)
+				if cur.st.get(k) != saved[n] {
+					cur.st = cur.st.set(k, saved[n])
+				}
+			}
+		}()
+	}
 	if callee == nil {
 		if cc.IsInvoke() {
 			if con := c.eng.ifaceContract(cc); con != nil {
